@@ -129,6 +129,11 @@ class VT100:
             row = self.grid.pop(top)
             if top == 0:
                 self.scrolled_off_top.append(row)
+            else:
+                # a row that leaves through the top of a scrolling region that does not start at the first line: xterm
+                # drops it, urwid keeps it in the scrollback like any other; the statement ("lines scrolled off the
+                # top are kept") asks for neither.  What a later height grow brings back is then not determined.
+                self.region_rows_dropped = True
             self.grid.insert(bottom, self._blank_row())
 
     def _scroll_down(self, top, bottom, n=1):
@@ -412,6 +417,8 @@ class VT100:
             for _ in range(self.h - height):
                 self.scrolled_off_top.append(self.grid.pop(0))
         else:
+            if getattr(self, "region_rows_dropped", False):
+                raise Ambiguous("height grow after rows left through the top of a scrolling region below the first line")
             for _ in range(height - self.h):
                 if self.scrolled_off_top:
                     self.grid.insert(0, fit(self.scrolled_off_top.pop()))
